@@ -20,7 +20,7 @@ RULE = (
   "trace is validated against the implementation by simulating each of its worlds alone; invariant checked in every state: world i == solo"
 )
 BOUNDS = {
-  "quick": "variants {dense, sparse, elliptic, sleep, delay, tight contact buffer}, nworld in {2,3}, all 16+64 assignments, 3 steps",
+  "quick": "variants {dense, sparse, elliptic, sleep, delay, tight contact buffer, 3 grid broadphase variants, sleepers (40 steps)}, nworld in {2,3}, all 16+64 assignments, 3 steps",
   "thorough": "same plus RK4/implicitfast variants and nworld=4 (256 assignments) for the dense variant",
 }
 ASSUMPTIONS = ["bit identity (same arithmetic per world)", "cases where any capacity overflow bit is set are excluded and counted", "solo run = make_data(nworld=1) with default capacities"]
@@ -42,12 +42,41 @@ VARIANTS = {
   "grid_nxn_sleep": dict(scene="grid", sleep=True, broadphase="NXN"),
   "grid_sap_tile": dict(scene="grid", sleep=False, broadphase="SAP_TILE"),
   "implicitfast": dict(opt='integrator="implicitfast"'),
+  # worlds whose trees fall asleep at different steps (12, 13, 34) so that the number of islands differs between worlds
+  "sleepers": dict(scene="sleepers", sleep=True, nstep=40),
 }
+
+SLEEPERS_XML = """<mujoco><option timestep="0.004" sleep_tolerance="0.01"><flag sleep="enable"/></option><worldbody><geom type="plane" size="5 5 .1"/>
+<body name="b0" pos="-1 0 0.1"><freejoint/><geom type="box" size=".1 .1 .1"/></body>
+<body name="b1" pos="0 0 0.1"><freejoint/><geom type="box" size=".1 .1 .1"/></body>
+<body name="b2" pos="1 0 0.1"><freejoint/><geom type="sphere" size=".1"/></body>
+<body pos="2 0 1"><joint name="hh" type="hinge" axis="0 1 0" frictionloss="0.1" damping="0.1"/><geom type="capsule" fromto="0 0 0 .2 0 0" size=".03" contype="0" conaffinity="0"/></body>
+</worldbody><actuator><motor joint="hh"/></actuator></mujoco>"""
+
+
+def _sleepers_situation(mjm, s, seed):
+  """0: box0 held awake by a 1e-3 N applied force, the rest falls asleep; 1: same for box1; 2: the sphere is dropped 4 mm and box0 slides
+  (they fall asleep 20 steps after the others); 3: everything rests."""
+  import mujoco
+
+  d = mujoco.MjData(mjm)
+  if s == 0:
+    d.xfrc_applied[1, 0] = 1e-3
+  elif s == 1:
+    d.xfrc_applied[2, 0] = 1e-3
+  elif s == 2:
+    d.qpos[16] += 0.004
+    d.qvel[0] = 0.05
+  d.qpos[mjm.nq - 1] = 0.2 * (s + 1) + 0.05 * seed
+  return d
+
+
+_SCENE = {}
 
 
 def scenarios(tier, seed):
   out = []
-  names = ["dense", "sparse", "elliptic", "sleep", "delay", "tightcon", "grid_sap_tile_sleep", "grid_sap_seg_sleep", "grid_nxn_sleep", "grid_sap_tile"] + (["rk4", "implicitfast"] if tier == "thorough" else [])
+  names = ["dense", "sparse", "elliptic", "sleep", "delay", "tightcon", "grid_sap_tile_sleep", "grid_sap_seg_sleep", "grid_nxn_sleep", "grid_sap_tile", "sleepers"] + (["rk4", "implicitfast"] if tier == "thorough" else [])
   for v in names:
     for nw in (2, 3):
       for a in itertools.product(range(NSIT), repeat=nw):
@@ -87,12 +116,15 @@ def _model(v):
     cfg = VARIANTS[v]
     if cfg.get("scene") == "grid":
       mjm = util.load(grid_xml(cfg.get("sleep", False)))
+    elif cfg.get("scene") == "sleepers":
+      mjm = util.load(SLEEPERS_XML)
     else:
       mjm = util.load(scenes.rich(cfg.get("opt", ""), sleep=cfg.get("sleep", False), delay=cfg.get("delay", False)))
     m = mjw.put_model(mjm)
     if cfg.get("broadphase"):
       m.opt.broadphase = getattr(mjw.BroadphaseType, cfg["broadphase"])
     _M[v] = (mjm, m)
+    _SCENE[id(mjm)] = (cfg.get("scene", "rich"), cfg.get("nstep", NSTEP))
   return _M[v]
 
 
@@ -141,13 +173,15 @@ def _simulate(mjm, m, assign, seed, **kw):
   nw = len(assign)
   kw.setdefault("njmax", 100)
   kw.setdefault("naconmax", 24 * nw)
-  grid = mjm.nbody > GRID_N
+  scene, nstep = _SCENE[id(mjm)]
+  grid = scene == "grid"
+  situation = {"grid": _grid_situation, "sleepers": _sleepers_situation, "rich": _situation}[scene]
   if grid:
     kw["njmax"] = 400
     kw["naconmax"] = max(kw["naconmax"], 120 * nw) if "tight" not in kw else kw["naconmax"]
   d = mjw.make_data(mjm, nworld=nw, **kw)
   for w, s in enumerate(assign):
-    util.copy_state((_grid_situation if grid else _situation)(mjm, s, seed), d, world=w)
+    util.copy_state(situation(mjm, s, seed), d, world=w)
   if grid and (m.opt.enableflags & mjw.EnableBit.SLEEP):
     # situation 0: put every free-box tree to sleep (self-cycles), as the repository's own sleep tests do
     from mujoco_warp._src import sleep as _sleep
@@ -160,7 +194,7 @@ def _simulate(mjm, m, assign, seed, **kw):
     util.set_field(d.tree_asleep, ta)
     _sleep.update_sleep(m, d)
   snaps = []
-  for step in range(NSTEP):
+  for step in range(nstep):
     if step >= 1:
       util.set_field(d.ctrl, np.stack([_ctrl(step, s, mjm.nu) for s in assign]))
     mjw.step(m, d)
@@ -173,6 +207,7 @@ def execute(scn):
   assign, seed, var = scn["assign"], scn["seed"], scn["variant"]
   nw = len(assign)
   c = util.Cmp()
+  NSTEP = _SCENE[id(mjm)][1]
   counts = dict(states=NSTEP, transitions=NSTEP, traces_validated_against_impl=len(assign), excluded_overflow=0)
   # references: each situation alone (nworld=1) and in a homogeneous batch of the same size
   for s in set(assign):
